@@ -203,7 +203,11 @@ def handle(case):
             snap = {}
             for rep in range(2):          # the same update twice: nothing may change
                 for p, g, comps in allp:
-                    p.model.run_linearize()
+                    try:
+                        p.model.run_linearize()
+                    except Exception as e:
+                        raise Fail('linearize-raises', '%s: run_linearize raised %s: %s' % (
+                            desc, type(e).__name__, str(e)[:300]))
                 for jt in fmts:
                     jac = probs[jt][1]._get_jacobian()
                     cur = [None if m is None else np.array(m.todense()) for m in (jac._dr_do_mtx, jac._dr_di_mtx)]
@@ -284,7 +288,11 @@ def handle(case):
                 else:
                     g._dinputs.set_val(np.where(internal, 0.0, v_in))
                     g._dresiduals.set_val(w)
-                g.run_apply_linear(mode)
+                try:
+                    g.run_apply_linear(mode)
+                except Exception as e:
+                    raise Fail('apply-raises-' + mode, '%s: run_apply_linear(%s) with %s jacobian raised %s: %s' % (
+                        desc, mode, name, type(e).__name__, str(e)[:300]))
                 if mode == 'fwd':
                     outs[(name, mode)] = [g._dresiduals.asarray().copy()]
                 else:
